@@ -70,8 +70,12 @@ class Patch:
             B.DiameterRequest.hop_by_hop_identifiers = LoggedList(self.log, self.who, "h")
             B.DiameterRequest.end_to_end_identifiers = LoggedList(self.log, self.who, "e")
         else:
-            B.DiameterRequest.hop_by_hop_identifiers = list()
-            B.DiameterRequest.end_to_end_identifiers = list()
+            # empty registries of the library's own container type (whatever it is)
+            import copy
+            h, e = copy.copy(self.saved[1]), copy.copy(self.saved[2])
+            h.clear()
+            e.clear()
+            B.DiameterRequest.hop_by_hop_identifiers, B.DiameterRequest.end_to_end_identifiers = h, e
         return self
 
     def __exit__(self, *a):
@@ -98,7 +102,12 @@ def other_constructions():
     from bromelia.lib.ietf_rfc6733.messages import DeviceWatchdogAnswer
     hdr = lambda: DiameterHeader(command_code=316, application_id=16777251, hop_by_hop=(0x0A0B0C0D).to_bytes(4, "big"),
                                  end_to_end=(0x01020304).to_bytes(4, "big"))
+    def hdr2(h, e):
+        return lambda: DiameterRequest(header=DiameterHeader(command_code=316, application_id=16777251, hop_by_hop=h.to_bytes(4, "big"),
+                                                              end_to_end=e.to_bytes(4, "big")))
     return [("explicit-header", lambda: DiameterRequest(header=hdr()), (0x0A0B0C0D, 0x01020304)),
+            ("explicit-header-zero", hdr2(0, 0), (0, 0)), ("explicit-header-zero-hbh", hdr2(0, 5), (0, 5)),
+            ("explicit-header-zero-e2e", hdr2(6, 0), (6, 0)), ("explicit-header-max", hdr2(2 ** 32 - 1, 2 ** 32 - 1), (2 ** 32 - 1, 2 ** 32 - 1)),
             ("answer", lambda: DiameterAnswer(command_code=316, application_id=16777251), None),
             ("typed-answer", lambda: DeviceWatchdogAnswer(origin_host="h", origin_realm="r", result_code=2001), None),
             ("message", lambda: DiameterMessage(DiameterHeader()), None)]
@@ -123,6 +132,30 @@ def make_source(rng, n):
     else:
         vals = [rng.randrange(2 ** 32) for _ in range(n)]
     return fam, vals
+
+
+def long_history(chk, n_between, tag):
+    """an identifier issued long ago is still refused: n_between creations with fresh values, then the early values again"""
+    from bromelia.base import DiameterRequest
+    early = [11, 12, 13, 14]
+    vals = early + list(range(1000, 1000 + 2 * n_between)) + early + [5 * 10 ** 6 + i for i in range(8)]
+    src = Source(vals)
+    issued = []
+    with Patch(src):
+        for _ in range(2 + n_between + 2):
+            m = DiameterRequest(command_code=316, application_id=16777251)
+            issued.append((int.from_bytes(m.header.hop_by_hop, "big"), int.from_bytes(m.header.end_to_end, "big")))
+    inp = {"op": "long-history", "creations": len(issued), "source": "4 early values, %d fresh values, the 4 early values again, fresh values" % (2 * n_between)}
+    chk.case(inp, kind="long:%s" % tag)
+    hs, es = [p[0] for p in issued], [p[1] for p in issued]
+    if len(set(hs)) != len(hs) or len(set(es)) != len(es):
+        dup = next(x for x in hs + es if (hs + es).count(x) > 1 and (hs.count(x) > 1 or es.count(x) > 1))
+        chk.violation("an identifier issued earlier in the process was issued again after many other requests", inp, "pairwise distinct",
+                      {"identifier": dup, "first_at": (hs.index(dup) if dup in hs else es.index(dup)), "again_at": len(issued) - 1})
+    out = core.run_driver(["ident %s %s" % (",".join(map(str, vals)), " ".join(["c"] * len(issued)))])[0]
+    want = " ".join("done:%d:%d" % p for p in issued)
+    if ("thr=" + want + " left=") not in out:
+        chk.corr_break("long-identifier-history", inp, want[-200:], out[-300:])
 
 
 def sequential(chk, rng, n_hist, tag):
@@ -320,6 +353,7 @@ def run(chk):
                     "CPython's GIL semantics below line granularity are not modelled"]
     quick = chk.tier == "quick"
     sequential(chk, rng, 300 if quick else 6000, "sweep")
+    long_history(chk, 4500 if quick else 70000, "sweep")
     concurrent(chk, rng, 150 if quick else 4000, 400 if quick else 20000, "sweep")
 
     def search():
